@@ -20,3 +20,22 @@ def _classify_c08(name, case, msg):
             "reshape", "sparse.reshape", "flatten", "expand_dims") and "raised" in msg:
         return "F-gcxs-0d"
     return None
+
+
+def _classify_c02(name, case, msg):
+    fmt = case.get("format", "")
+    idx = case.get("index", [])
+    kinds = [e[0] for e in idx]
+    if fmt.startswith("gcxs"):
+        if case.get("shape") == []:
+            return "F-gcxs-0d-index"
+        if "n" in kinds:
+            return "F-gcxs-newaxis-key"
+        if kinds.count("a") + kinds.count("b") >= 2:
+            return "F-gcxs-multi-array-key"
+        if "e" in kinds and "numpy returns an array but the call returned" in msg:
+            return "F-gcxs-ellipsis-scalar"
+    if fmt == "dok":
+        if kinds and all(k in ("a", "b") for k in kinds) and len(kinds) != len(case.get("shape", [])) and "NotImplementedError" in msg:
+            return "F-dok-partial-index-lists"
+    return None
